@@ -1,0 +1,7 @@
+//go:build !verif
+
+package bkl
+
+func verifStep(site int) {}
+
+func verifEvent(kind, a, b string) {}
